@@ -15,6 +15,7 @@
 package classifier
 
 import (
+	"math"
 	"strings"
 
 	"github.com/sergi/go-diff/diffmatchpatch"
@@ -53,6 +54,13 @@ func docDiff(id string, doc1 *indexedDocument, doc1Start, doc1End int, doc2 *ind
 	chars2 := append([]rune(nil), doc2.runes[doc2Start:doc2End]...)
 
 	dmp := diffmatchpatch.New()
+	// By default the library gives up refining a diff one second of wall-clock
+	// time after it started and returns a coarser one, so a goroutine that is
+	// descheduled long enough in the middle of a diff (a loaded machine, many
+	// concurrent Match calls) scores differently or finds a different license.
+	// Results must not depend on timing: move the deadline out of reach. (A
+	// timeout of 0 would also disable the library's half-match speed-up.)
+	dmp.DiffTimeout = math.MaxInt64
 	diffs := dmp.DiffMainRunes(chars1, chars2, false)
 
 	// Recover the words from the previous rune encoding and return the textual diffs.
